@@ -619,12 +619,33 @@ class Interp:
             cands = c2 or cands
         return cands[0] if len(cands) == 1 else None
 
+    def up_frames(self):
+        """frames above the current one, nearest first (the callee's `chain` is this list minus its direct caller)"""
+        return ([self.caller] if getattr(self, 'caller', None) is not None else []) + list(getattr(self, 'up_chain', []))
+
+    def restore_chain(self, snaps):
+        for f, sv in zip(self.up_frames(), snaps):
+            f['locals'].clear(); f['locals'].update({k: copyval(v) for k, v in sv.items()})
+
+    def merge_chain(self, rets_snaps):
+        """rets_snaps: [(pc, [locals per up-frame])], last entry is the default; writes the ite-merged locals back"""
+        if not rets_snaps or not rets_snaps[-1][1]:
+            return
+        cur = [dict(x) for x in rets_snaps[-1][1]]
+        for pc, snaps in reversed(rets_snaps[:-1]):
+            for i, sv in enumerate(snaps):
+                if i < len(cur):
+                    cur[i] = {k: (ite(pc, sv[k], cur[i][k]) if k in sv and k in cur[i] else cur[i].get(k, sv.get(k))) for k in set(cur[i]) | set(sv)}
+        for f, sv in zip(self.up_frames(), cur):
+            f['locals'].clear(); f['locals'].update(sv)
+
     def sub_interp(self, fr):
         s_ = self.__class__(self.fns, self.K)
         for k in ('world', 'shared', 'cms_ret', 'merge_diamonds'):
             if hasattr(self, k):
                 setattr(s_, k, getattr(self, k))
         s_.caller = fr
+        s_.up_chain = self.up_frames()
         return s_
 
     def call_local_merged(self, fn, argvals, fr):
@@ -640,10 +661,14 @@ class Interp:
         val = rets[-1][1]
         world = dict(rets[-1][2]) if rets[-1][2] is not None else None
         cal = world.pop('__caller__') if world is not None and '__caller__' in world else None
+        if world is not None:
+            self.merge_chain([(pc, (snap or {}).get('__chain__', [])) for pc, v, snap in rets])
+            world.pop('__chain__', None)
         for pc, v, snap in reversed(rets[:-1]):
             val = ite(pc, v, val) if val is not None else None
             if world is not None:
                 snap = dict(snap)
+                snap.pop('__chain__', None)
                 c2 = snap.pop('__caller__', None)
                 world = {k: ite(pc, snap[k], world[k]) for k in world}
                 if cal is not None and c2 is not None:
@@ -750,6 +775,8 @@ class Interp:
                 snap = {k: copyval(v) for k, v in self.world['locals'].items()} if getattr(self, 'world', None) else None
                 if getattr(self, 'caller', None) is not None and snap is not None:
                     snap['__caller__'] = {k: copyval(v) for k, v in self.caller['locals'].items()}
+                    # frames further up the call chain: a `&mut` handed down two levels is written through here
+                    snap['__chain__'] = [{k: copyval(v) for k, v in f['locals'].items()} for f in getattr(self, 'up_chain', [])]
                 self.results.append((pc, 'ret', fr['locals'].get('_0'), snap)); return
             if t in ('unreachable;', 'resume;'):
                 return
@@ -810,6 +837,7 @@ class Interp:
                 if isinstance(val, MultiReturn):
                     for apc, aval, asnap in val.alts:
                         callerloc = asnap.pop('__caller__')
+                        self.restore_chain(asnap.pop('__chain__', []))
                         self.world['locals'].clear(); self.world['locals'].update({k: copyval(v) for k, v in asnap.items()})
                         fr['locals'].clear(); fr['locals'].update({k: copyval(v) for k, v in callerloc.items()})
                         self.store(fr, self.parse_place(m.group(1)), aval)
@@ -857,10 +885,14 @@ class Interp:
         wsaved = {k: copyval(v) for k, v in w['locals'].items()} if w else None
         cal = getattr(self, 'caller', None)
         csaved = {k: copyval(v) for k, v in cal['locals'].items()} if cal else None
+        chain = list(getattr(self, 'up_chain', []))
+        chsaved = [{k: copyval(v) for k, v in f['locals'].items()} for f in chain]
         self.exec_block(fr, bb, pc)
         fr['locals'].clear(); fr['locals'].update(saved)
         if w: w['locals'].clear(); w['locals'].update(wsaved)
         if cal: cal['locals'].clear(); cal['locals'].update(csaved)
+        for f, sv in zip(chain, chsaved):
+            f['locals'].clear(); f['locals'].update(sv)
 
     def exec_stmt(self, fr, st):
         assert st.endswith(';'), st
